@@ -210,7 +210,7 @@ func TestC32Traces(t *testing.T) {
 	}
 	kit.SetChecks(60, 400)
 	rapid.Check(t, func(rt *rapid.T) {
-		spec := memsys.GenAssembly(rt, memsys.GenOpts{WTMinLatency: 1, Bottoms: []string{"ideal", "banked", "dram"}})
+		spec := memsys.GenAssembly(rt, memsys.GenOpts{Bottoms: []string{"ideal", "banked", "dram"}})
 		c := c32Case{Spec: spec}
 		if rapid.IntRange(0, 2).Draw(rt, "reset") == 0 {
 			c.ResetAt = rapid.IntRange(1, 15).Draw(rt, "resetAt")
